@@ -13,9 +13,18 @@ func init() {
 
 var c17Rows = []drvRow{{"a": "x", "b": "p"}, {"a": "y"}, {"a": "x"}}
 
-func c17Query(tag string, c *fileConn) {
+func c17Query(tag string, c *fileConn) { c17QueryN(tag, c, 0) }
+
+// c17QueryN: different goroutines send different query texts
+func c17QueryN(tag string, c *fileConn, which int) {
 	q := drvQuery{text: `a = "x"`, match: isA("x")}
+	if which%2 == 1 {
+		q = drvQuery{text: `a = "y" ; a`, match: isA("y"), groupBy: []string{"a"}}
+	}
 	r, err := c.QueryContext(drvCtx, q.text, nil)
+	if err != nil {
+		verifTrace("query error", err.Error())
+	}
 	verifAssert(err == nil, tag+": a query on an open handle failed")
 	if err == nil {
 		drvCheckRows(tag, q, c17Rows, r)
@@ -104,17 +113,26 @@ func HarnessC17Conc() {
 	var wg sync.WaitGroup
 	verifPreemptions(2 + verifTier())
 	verifSchedule(true)
-	wg.Add(2)
-	go func() {
-		defer wg.Done()
-		c, err := drvOpen(d, dsn)
-		verifAssert(err == nil, "C17: concurrent open failed")
-		if err != nil {
-			return
-		}
-		c17Query("C17 concurrent", c)
-		verifAssert(c.Close() == nil, "C17: Close failed")
-	}()
+	verifLockset(true)
+	// natively (replay of a schedule-dependent counterexample) more goroutines do the same
+	// first use at once, which widens the window the Go scheduler has to hit
+	extra := 0
+	if !verifSymbolic() && scenario == 0 {
+		extra = 14
+	}
+	wg.Add(2 + extra)
+	for i := 0; i < 1+extra; i++ {
+		go func(i int) {
+			defer wg.Done()
+			c, err := drvOpen(d, dsn)
+			verifAssert(err == nil, "C17: concurrent open failed")
+			if err != nil {
+				return
+			}
+			c17QueryN("C17 concurrent", c, i)
+			verifAssert(c.Close() == nil, "C17: Close failed")
+		}(i)
+	}
 	go func() {
 		defer wg.Done()
 		if scenario == 1 {
@@ -127,11 +145,13 @@ func HarnessC17Conc() {
 		if err != nil {
 			return
 		}
-		c17Query("C17 concurrent", c)
+		c17QueryN("C17 concurrent", c, 1)
 		verifAssert(c.Close() == nil, "C17: Close failed")
 	}()
 	wg.Wait()
+	verifLockset(false)
 	verifSchedule(false)
+	verifRaceFree("C17: driver handles are used concurrently without a common lock")
 	verifAssert(!verifFlockHeld(p1), "C17: the file stays locked after its last handle was closed")
 	c, err := drvOpen(d, dsn)
 	verifAssert(err == nil, "C17: the file cannot be opened again after its last handle was closed")
